@@ -259,7 +259,7 @@ def g_convert(rng, ragged):
     t = _table(rng, ragged, dup=True)
     hdr = t[0]
     mode = rng.choice(['one', 'several', 'dict', 'translate', 'index', 'where', 'passrow', 'method', 'all', 'replace', 'replaceall', 'update', 'format',
-                       'interpolate', 'listspec'])
+                       'interpolate', 'listspec', 'formatall', 'interpolateall', 'all', 'replaceall'])
     c = {'table': t, 'mode': mode}
     if mode in ('one', 'where', 'passrow', 'replace', 'update', 'format', 'interpolate', 'translate', 'method'):
         c['field'] = rng.choice(hdr) if rng.random() < 0.7 else rng.randrange(len(hdr))
@@ -277,6 +277,8 @@ def g_convert(rng, ragged):
                 r[fi] = rng.choice(TEXT)
     if mode in ('where', 'update'):
         c['where'] = rng.choice(['len', 'expr', None]) if mode == 'update' else rng.choice(['len', 'expr'])
+    if mode in ('all', 'replaceall', 'formatall', 'interpolateall', 'replace', 'format', 'interpolate'):
+        c['where'] = rng.choice([None, 'len', 'expr'])
     c['a'], c['b'] = rng.choice(CELLS), rng.choice(['NEW', None, 0])
     return c
 
@@ -670,22 +672,30 @@ def j_convert(case, ctx, table, hdr, rows, tabs, frame):
         call = lambda: petl.convert(table, case['field'], lambda v, row: ('P', v, len(row)), pass_row=True)  # noqa: E731
     elif mode == 'all':
         targets = {i: conv for i in range(len(hdr))}
-        call = lambda: petl.convertall(table, conv)  # noqa: E731
+        call = lambda: petl.convertall(table, conv, **kw)  # noqa: E731
+    elif mode == 'formatall':
+        targets = {i: (lambda v: '<{}>'.format(v)) for i in range(len(hdr))}
+        call = lambda: petl.formatall(table, '<{}>', **kw)  # noqa: E731
+    elif mode == 'interpolateall':
+        targets = {i: (lambda v: '<%s>' % (v,)) for i in range(len(hdr))}
+        call = lambda: petl.interpolateall(table, '<%s>', **kw)  # noqa: E731
+        if any(isinstance(v, tuple) for r in rows for v in r):
+            return None
     elif mode == 'replace':
         targets = {fidx(case['field']): (lambda v: _translate({a: b}, v))}
-        call = lambda: petl.replace(table, case['field'], a, b)  # noqa: E731
+        call = lambda: petl.replace(table, case['field'], a, b, **kw)  # noqa: E731
     elif mode == 'replaceall':
         targets = {i: (lambda v: _translate({a: b}, v)) for i in range(len(hdr))}
-        call = lambda: petl.replaceall(table, a, b)  # noqa: E731
+        call = lambda: petl.replaceall(table, a, b, **kw)  # noqa: E731
     elif mode == 'update':
         targets = {fidx(case['field']): (lambda v: b)}
         call = lambda: petl.update(table, case['field'], b, **kw)  # noqa: E731
     elif mode == 'format':
         targets = {fidx(case['field']): (lambda v: '<{}>'.format(v))}
-        call = lambda: petl.format(table, case['field'], '<{}>')  # noqa: E731
+        call = lambda: petl.format(table, case['field'], '<{}>', **kw)  # noqa: E731
     elif mode == 'interpolate':
         targets = {fidx(case['field']): (lambda v: '<%s>' % (v,))}
-        call = lambda: petl.interpolate(table, case['field'], '<%s>')  # noqa: E731
+        call = lambda: petl.interpolate(table, case['field'], '<%s>', **kw)  # noqa: E731
         if any(isinstance(_get(r, fidx(case['field']), None), tuple) for r in rows):
             return None      # '%s' % (1, 2) is a formatting error of the user's format string, not of petl
     exp = [tuple(hdr)]
